@@ -8,7 +8,7 @@ From DV Require Import Base.Field Base.LinAlg Base.QcInst Model.Enums Model.Homo
   Model.Sampler Model.SamplerQc Model.Transform Model.TransformQc Gen.Hmm Gen.GridT Gen.LinInv Gen.Transform
   Model.TransformGeneric
   Proofs.C06Fresh Proofs.C06Views Proofs.C06Composite Proofs.C06Warp Proofs.C06Pullback Proofs.C06Refuted
-  Proofs.C06Strided Proofs.C06Sequence Proofs.C06Generic Proofs.C06Zero.
+  Proofs.C06Strided Proofs.C06Sequence Proofs.C06Generic Proofs.C06Zero Proofs.C06DispOther.
 Import ListNotations.
 Local Open Scope fld_scope.
 
@@ -108,10 +108,21 @@ Theorem C06_views_agree_world_axes :
 Proof. exact points_world. Qed.
 Print Assumptions C06_views_agree_world_axes.
 
-(* the dense field on the own grid -- and on any grid with the same cube frame -- describes that world map.
-   FULL STATEMENT (any other grid h, any flag ac'; false of the unchanged tree, see _refuted): without the frame
-   hypothesis.  Missing: grids with another domain or the other align_corners flag. *)
-Theorem C06_views_agree_dense_field_partial :
+(* the dense field disp(h) / flow(h) on ANY grid h (any domain, size, orientation, either flag) describes that world map:
+   on the own grid (and any grid with the same cube frame) the matrix is applied as it is; on every other grid it is
+   re-expressed in h's cube.  The traced 2-D field at a point of another grid's cube is that re-expressed field (3-D: the
+   translator checks the re-expression plumbing structurally, the correspondence compares with field_of_world_map). *)
+Theorem C06_views_agree_dense_field :
+  forall (K : fld), is_field K -> char0 K ->
+  forall D : nat, D = 2%nat \/ D = 3%nat ->
+  forall (f : form) (a : nat -> nat -> K) (ac ac' : bool) (g h : gridf) (X : list K),
+  gwf D g -> gwf D h -> length X = D ->
+  disp_reexpressed D f (tab D (fcols D f) a) ac g ac' h X
+  = field_of_world_map D (world_map D f (tab D (fcols D f) a) ac g) ac' h X.
+Proof. exact disp_reexpressed_describes_world_map. Qed.
+Print Assumptions C06_views_agree_dense_field.
+
+Theorem C06_views_agree_dense_field_own_frame :
   forall (K : fld), is_field K -> char0 K ->
   forall D : nat, D = 2%nat \/ D = 3%nat ->
   forall (f : form) (a : nat -> nat -> K) (ac ac' : bool) (g h : gridf) (x : nat -> K),
@@ -120,27 +131,16 @@ Theorem C06_views_agree_dense_field_partial :
   view_disp D f (tab D (fcols D f) a) (vtab D x)
   = field_of_world_map D (world_map D f (tab D (fcols D f) a) ac g) ac' h (vtab D x).
 Proof. exact disp_same_frame_describes_world_map. Qed.
-Print Assumptions C06_views_agree_dense_field_partial.
+Print Assumptions C06_views_agree_dense_field_own_frame.
 
-(* the FULL clause for any other grid, as a statement about the re-expressed matrix (what CompositeTransform.disp computes for
-   composite linear classes -- tied by correspondence on arbitrary grids -- and what SpatialTransform.disp should compute) *)
-Theorem C06_dense_field_reexpressed_is_world_map :
+Theorem C06_dense_field_other_grid_traced :
   forall (K : fld), is_field K -> char0 K ->
-  forall D : nat, D = 2%nat \/ D = 3%nat ->
-  forall (f : form) (a : nat -> nat -> K) (ac ac' : bool) (g h : gridf) (X : list K),
-  gwf D g -> gwf D h -> length X = D ->
-  disp_reexpressed D f (tab D (fcols D f) a) ac g ac' h X
-  = field_of_world_map D (world_map D f (tab D (fcols D f) a) ac g) ac' h X.
-Proof. exact disp_reexpressed_describes_world_map. Qed.
-Print Assumptions C06_dense_field_reexpressed_is_world_map.
-
-Theorem C06_views_agree_dense_field_refuted :
-  exists (M : list (list Qc)) (g h : gridf (K:=QcF)) (x : list Qc),
-    view_disp (K:=QcF) 2 FT M x <> field_of_world_map (K:=QcF) 2 (world_map (K:=QcF) 2 FT M false g) false h x /\
-    view_disp (K:=QcF) 2 FT M x = [q 1 2; q 0 1] /\
-    field_of_world_map (K:=QcF) 2 (world_map (K:=QcF) 2 FT M false g) false h x = [q 1 4; q 0 1].
-Proof. exact disp_other_grid_refuted. Qed.
-Print Assumptions C06_views_agree_dense_field_refuted.
+  forall (f : form) (a : nat -> nat -> K) (ac ac' : bool) (g h : gridf) (x : nat -> K),
+  gwf 2 g -> gwf 2 h ->
+  gen_disp_other2 f ac ac' (gN 2 g) (gS 2 g) (gC 2 g) (gD 2 g) (gN 2 h) (gS 2 h) (gC 2 h) (gD 2 h) (tab 2 (fcols 2 f) a) (vtab 2 x)
+  = disp_reexpressed 2 f (tab 2 (fcols 2 f) a) ac g ac' h (vtab 2 x).
+Proof. exact gen_disp_other2_is_reexpressed. Qed.
+Print Assumptions C06_dense_field_other_grid_traced.
 
 (* non-rigid models, T := the interpolated field: exact on fields that are affine in the index (any size, any
    cell whose corners carry the ramp); resizing the field (transform_grid) = interpolating it (transform_points)
@@ -296,12 +296,32 @@ Theorem C06_warp_coords_traced :
 Proof. exact gen_warp_coords2_is_model. Qed.
 Print Assumptions C06_warp_coords_traced.
 
-(* non-rigid transform + target grid that is not a lattice of the transform's domain: ImageTransformer resizes
-   the field to the target size (transform(..., grid=True)) instead of interpolating it at the target points *)
-Theorem C06_warp_nonrigid_other_domain_refuted :
+(* ImageTransformer with ANY composite / non-rigid member list (generic loop) and a target that is not a lattice of the
+   transform's domain: the transform is called with grid = false (traced), so the output is the pull-back by the composition of
+   the member point maps for any three grids; resizing would differ there (last statement) *)
+Theorem C06_warp_sequence_any_target :
+  forall (K : fld) (floorK : K -> Z) (pad : padmode) (ac : bool) (ms : list (fmember (K:=K))) (tg g src : gridf)
+    (img : list (list K)) (j : list K),
+  warp_seq_out2 floorK pad ac ms false tg g src img j
+  = match gen_pts2 2 (cubeax ac) (cubeax ac) (gN 2 g) (gS 2 g) (gC 2 g) (gD 2 g) (gN 2 src) (gS 2 src) (gC 2 src) (gD 2 src)
+            (seq_point_map ms (gen_pts2 2 (cubeax ac) (cubeax ac) (gN 2 tg) (gS 2 tg) (gC 2 tg) (gD 2 tg) (gN 2 g) (gS 2 g) (gC 2 g) (gD 2 g)
+                                 (target_coord 2 ac tg j))) with
+    | [x; y] => grid_sample2 floorK pad ac img x y
+    | _ => 0
+    end.
+Proof. exact warp_sequence_any_target. Qed.
+Print Assumptions C06_warp_sequence_any_target.
+
+Theorem C06_image_transformer_flag_traced :
+  forallb (fun e => Bool.eqb (fst e) (snd e)) gen_image_transformer_flag_table = true /\
+  (existsb fst gen_image_transformer_flag_table = true /\ existsb (fun e => negb (fst e)) gen_image_transformer_flag_table = true).
+Proof. exact image_transformer_flag_traced. Qed.
+Print Assumptions C06_image_transformer_flag_traced.
+
+Theorem C06_resize_differs_off_lattice :
   warp_grid1 (K:=QcF) floorQ true u_w xs_w <> map (warp_points1 (K:=QcF) floorQ true u_w) xs_w.
-Proof. exact warp_other_domain_refuted. Qed.
-Print Assumptions C06_warp_nonrigid_other_domain_refuted.
+Proof. exact resize_differs_off_lattice. Qed.
+Print Assumptions C06_resize_differs_off_lattice.
 
 (* ================================================================ 5. round 2: generic loops, strided buffers, generic configs *)
 (* SequentialTransform.forward, generic branch, ANY member list: the first member receives the composite's grid flag, every
